@@ -469,3 +469,294 @@ Proof.
     rewrite (comps_loop (S (S (length (c :: r)))) r [c] _ ch_gt _ _ NW T eq_refl) by (cbn; unfold char; lia).
     cbn [app]; destruct (g_comps _ _); reflexivity.
 Qed.
+
+(* ------------------------------------------------------------------------- *)
+(* the recogniser decides the relation                                         *)
+(* ------------------------------------------------------------------------- *)
+Definition stops (r : list char) : Prop :=
+  match r with [] => True | h :: _ => idchar h = false end.
+
+Lemma span_exact f t r : forallb f t = true ->
+  match r with [] => True | h :: _ => f h = false end -> span f (t ++ r) = (t, r).
+Proof.
+  intros T R. rewrite (span_app_all _ _ _ T).
+  destruct r as [|h r]; cbn; [now rewrite app_nil_r|]. rewrite R. now rewrite app_nil_r.
+Qed.
+
+Lemma g_oint_sound l a r : g_oint l = Some (a, r) -> exists t, l = t ++ r /\ OInt t a /\ stops r.
+Proof.
+  unfold g_oint. destruct (span idchar l) as [t r0] eqn:S. apply span_spec in S as (E & T & R).
+  destruct t as [|c t].
+  - intros H; injection H as <- <-. exists []. repeat split; [exact E|constructor|exact R].
+  - destruct (py_int (c :: t)) eqn:P; intros H; [|discriminate]. injection H as <- <-.
+    exists (c :: t). repeat split; [exact E| now constructor |exact R].
+Qed.
+
+Lemma g_oint_complete t a r : OInt t a -> stops r -> g_oint (t ++ r) = Some (a, r).
+Proof.
+  intros H R. unfold g_oint. destruct H as [|t k T P].
+  - rewrite (span_exact idchar [] r eq_refl R). reflexivity.
+  - rewrite (span_exact idchar t r T R). destruct t; [discriminate P|]. rewrite P. reflexivity.
+Qed.
+
+Lemma stops_rb r : stops (ch_rb :: r). Proof. reflexivity. Qed.
+Lemma stops_colon r : stops (ch_colon :: r). Proof. reflexivity. Qed.
+
+Lemma g_slice_sound l es r' s : g_slice l = Some (es, r') -> slice_of_elems es = Some s ->
+  exists body, l = body ++ r' /\ SliceStr (ch_lb :: body) s.
+Proof.
+  unfold g_slice.
+  destruct (g_oint l) as [[a r]|] eqn:G1; [|discriminate].
+  destruct (g_oint_sound _ _ _ G1) as (t1 & E1 & O1 & _).
+  destruct r as [|h r1]; [discriminate|].
+  destruct (h =? ch_rb) eqn:H1.
+  { apply N.eqb_eq in H1. subst h. destruct a as [k|]; [|discriminate]. intros H; injection H as <- <-.
+    cbn. intros H; injection H as <-. exists (t1 ++ [ch_rb]). split.
+    - rewrite <- app_assoc. exact E1.
+    - apply (SS_1 t1 k O1). }
+  destruct (h =? ch_colon) eqn:H2; [|discriminate]. apply N.eqb_eq in H2. subst h.
+  destruct (g_oint r1) as [[b r2]|] eqn:G2; [|discriminate].
+  destruct (g_oint_sound _ _ _ G2) as (t2 & E2 & O2 & _).
+  destruct r2 as [|h2 r3]; [discriminate|].
+  destruct (h2 =? ch_rb) eqn:H3.
+  { apply N.eqb_eq in H3. subst h2. intros H; injection H as <- <-.
+    intros H. assert (s = SSlice a b None) by (destruct a; cbn in H; congruence). subst s.
+    exists (t1 ++ [ch_colon] ++ t2 ++ [ch_rb]). split.
+    - subst l r1. rewrite <- !app_assoc. reflexivity.
+    - apply (SS_2 t1 a t2 b O1 O2). }
+  destruct (h2 =? ch_colon) eqn:H4; [|discriminate]. apply N.eqb_eq in H4. subst h2.
+  destruct (g_oint r3) as [[c r4]|] eqn:G3; [|discriminate].
+  destruct (g_oint_sound _ _ _ G3) as (t3 & E3 & O3 & _).
+  destruct r4 as [|h4 r5]; [discriminate|].
+  destruct (h4 =? ch_rb) eqn:H5; [|discriminate]. apply N.eqb_eq in H5. subst h4.
+  intros H; injection H as <- <-.
+  intros H. assert (s = SSlice a b c) by (destruct a; cbn in H; congruence). subst s.
+  exists (t1 ++ [ch_colon] ++ t2 ++ [ch_colon] ++ t3 ++ [ch_rb]). split.
+  - subst l r1 r3. rewrite <- !app_assoc. reflexivity.
+  - apply (SS_3 t1 a t2 b t3 c O1 O2 O3).
+Qed.
+
+Lemma g_slice_complete sl s : SliceStr sl s -> forall r' : list char,
+  exists body : list char, sl = ch_lb :: body /\ g_slice_val (body ++ r') = Some (s, r').
+Proof.
+  intros H r'. unfold g_slice_val, g_slice. destruct H as [t k O|ta a tb b Oa Ob|ta a tb b tc c Oa Ob Oc].
+  - exists (t ++ [ch_rb]). split; [reflexivity|]. rewrite <- app_assoc. cbn [app]. 
+    rewrite (g_oint_complete _ _ _ O (stops_rb r')). reflexivity.
+  - exists (ta ++ [ch_colon] ++ tb ++ [ch_rb]). split; [reflexivity|]. rewrite <- !app_assoc. cbn [app].
+    rewrite (g_oint_complete _ _ _ Oa (stops_colon _)). cbn match.
+    change (ch_colon =? ch_rb) with false. change (ch_colon =? ch_colon) with true. cbn match.
+    rewrite (g_oint_complete _ _ _ Ob (stops_rb r')). change (ch_rb =? ch_rb) with true. cbn match.
+    destruct a; reflexivity.
+  - exists (ta ++ [ch_colon] ++ tb ++ [ch_colon] ++ tc ++ [ch_rb]). split; [reflexivity|].
+    rewrite <- !app_assoc. cbn [app].
+    rewrite (g_oint_complete _ _ _ Oa (stops_colon _)). cbn match.
+    change (ch_colon =? ch_rb) with false. change (ch_colon =? ch_colon) with true. cbn match.
+    rewrite (g_oint_complete _ _ _ Ob (stops_colon _)). cbn match.
+    change (ch_colon =? ch_rb) with false. change (ch_colon =? ch_colon) with true. cbn match.
+    rewrite (g_oint_complete _ _ _ Oc (stops_rb r')). change (ch_rb =? ch_rb) with true. cbn match.
+    destruct a; reflexivity.
+Qed.
+
+Lemma sep_not_idchar c : is_sep c = true -> idchar c = false.
+Proof. intros H. apply is_sep_cases in H as [-> | [-> | ->]]; reflexivity. Qed.
+
+Lemma comps_stops l cs : Comps l cs -> stops l.
+Proof. intros H. destruct H; cbn; [exact I|now apply sep_not_idchar]. Qed.
+
+Lemma comps_not_lb l cs : Comps l cs -> match l with [] => True | h :: _ => (h =? ch_lb) = false end.
+Proof. intros H. destruct H; cbn; [exact I|now apply sep_not_lb]. Qed.
+
+Lemma slicestr_head sl s : SliceStr sl s -> exists body, sl = ch_lb :: body.
+Proof. intros H. destruct H; eexists; reflexivity. Qed.
+
+Lemma g_oslice_sound l s r : g_oslice l = Some (s, r) -> exists sl, l = sl ++ r /\ OSlice sl s.
+Proof.
+  unfold g_oslice. destruct l as [|c l].
+  - intros H; injection H as <- <-. exists []. split; [reflexivity|constructor].
+  - destruct (c =? ch_lb) eqn:E.
+    + apply N.eqb_eq in E. subst c. unfold g_slice_val.
+      destruct (g_slice l) as [[es r']|] eqn:G; [|discriminate].
+      destruct (slice_of_elems es) as [s'|] eqn:SE; [|discriminate].
+      intros H; injection H as <- <-.
+      destruct (g_slice_sound _ _ _ _ G SE) as (body & E & SS).
+      exists (ch_lb :: body). split; [cbn; now rewrite E|now constructor].
+    + intros H; injection H as <- <-. exists []. split; [reflexivity|constructor].
+Qed.
+
+Lemma g_comps_sound fuel : forall l cs, g_comps fuel l = Some cs -> Comps l cs.
+Proof.
+  induction fuel as [|f IH]; intros l cs; destruct l as [|c r]; cbn [g_comps].
+  - intros H; injection H as <-. constructor.
+  - discriminate.
+  - intros H; injection H as <-. constructor.
+  - destruct (is_sep c) eqn:SEP; [|discriminate].
+    destruct (span idchar r) as [id r1] eqn:S. apply span_spec in S as (E & ID & _).
+    destruct id as [|i0 id]; [discriminate|].
+    destruct (g_oslice r1) as [[s r2]|] eqn:GO; [|discriminate].
+    destruct (g_comps f r2) as [cs'|] eqn:GC; [|discriminate].
+    intros H; injection H as <-.
+    destruct (g_oslice_sound _ _ _ GO) as (sl & E2 & OS).
+    subst r r1. apply C_cons; [exact SEP|split; [discriminate|exact ID]|exact OS|now apply IH].
+Qed.
+
+Lemma g_comps_complete l cs : Comps l cs -> forall fuel, (length l < fuel)%nat -> g_comps fuel l = Some cs.
+Proof.
+  induction 1 as [|sep id sl s rest cs SEP [NE ID] OS CR IH]; intros fuel LEN.
+  - apply g_comps_nil.
+  - destruct fuel as [|f]; [lia|]. cbn [g_comps]. rewrite SEP.
+    cbn [length] in LEN. rewrite !app_length in LEN.
+    assert (ST : stops (sl ++ rest)).
+    { destruct OS as [|sl s SS]; [exact (comps_stops _ _ CR)|].
+      destruct (slicestr_head _ _ SS) as [body ->]. reflexivity. }
+    rewrite (span_exact idchar id (sl ++ rest) ID ST).
+    destruct id as [|i0 id]; [now elim NE|].
+    assert (GO : g_oslice (sl ++ rest) = Some (s, rest)).
+    { destruct OS as [|sl s SS].
+      - cbn [app]. pose proof (comps_not_lb _ _ CR) as NL. unfold g_oslice. destruct rest; [reflexivity|]. now rewrite NL.
+      - destruct (g_slice_complete _ _ SS rest) as (body & -> & G). cbn [app g_oslice].
+        change (ch_lb =? ch_lb) with true. exact G. }
+    rewrite GO, IH by lia. reflexivity.
+Qed.
+
+Theorem gparse_iff_query w p : gparse w = Some p <-> Query w p.
+Proof.
+  split.
+  - unfold gparse. destruct w as [|c r]; [discriminate|].
+    destruct (c =? ch_at) eqn:A.
+    { apply N.eqb_eq in A. subst c. destruct r as [|c1 r1]; [discriminate|].
+      destruct (c1 =? ch_lb) eqn:B; [|discriminate]. apply N.eqb_eq in B. subst c1.
+      unfold g_slice_val. destruct (g_slice r1) as [[es r2]|] eqn:G; [|discriminate].
+      destruct (slice_of_elems es) as [s|] eqn:SE; [|discriminate].
+      destruct r2 as [|c2 r3]; [discriminate|].
+      destruct (is_sep1 c2) eqn:S1; [|discriminate].
+      destruct (g_comps _ (c2 :: r3)) as [cs|] eqn:GC; [|discriminate].
+      intros H; injection H as <-.
+      destruct (g_slice_sound _ _ _ _ G SE) as (body & E & SS). subst r1.
+      apply g_comps_sound in GC. inversion GC; subst.
+      apply (Q_subset (ch_lb :: body) s _ _ _ SS GC). exact S1. }
+    destruct (is_sep1 c) eqn:S1.
+    { destruct (g_comps _ (c :: r)) as [cs|] eqn:GC; [|discriminate].
+      intros H; injection H as <-. apply g_comps_sound in GC. inversion GC; subst.
+      apply Q_sep; [exact GC|exact S1]. }
+    destruct (id0_start c) eqn:I0; [|discriminate].
+    destruct (g_comps _ (ch_gt :: c :: r)) as [cs|] eqn:GC; [|discriminate].
+    intros H; injection H as <-. apply g_comps_sound in GC. now apply Q_bare.
+  - intros H. destruct H as [sl s w c0 cs SS CM S1|w c0 cs CM S1|c w cs I0 CM].
+    + destruct (g_slice_complete _ _ SS w) as (body & -> & G). cbn [app gparse].
+      change (ch_at =? ch_at) with true. change (ch_lb =? ch_lb) with true. cbn match. rewrite G.
+      inversion CM; subst. cbn [c_sep] in S1. rewrite S1.
+      rewrite (g_comps_complete _ _ CM) by lia. reflexivity.
+    + inversion CM; subst. cbn [c_sep] in S1. unfold gparse.
+      assert (A : (sep =? ch_at) = false) by (unfold is_sep1, ch_slash, ch_gt, ch_at in *; lia).
+      rewrite A, S1. rewrite (g_comps_complete _ _ CM) by lia. reflexivity.
+    + unfold gparse.
+      assert (A : (c =? ch_at) = false) by (unfold id0_start, is_digit, is_upper, ch_at in *; lia).
+      assert (B : is_sep1 c = false) by (unfold id0_start, is_digit, is_upper, is_sep1, ch_slash, ch_gt in *; lia).
+      rewrite A, B, I0. rewrite (g_comps_complete _ _ CM) by (cbn; lia). reflexivity.
+Qed.
+
+(* ------------------------------------------------------------------------- *)
+(* the main theorems                                                           *)
+(* ------------------------------------------------------------------------- *)
+Theorem parse_iff_grammar s p : parse s = Ok p <-> Query (strip_ws s) p.
+Proof.
+  rewrite parse_eq_grammar. unfold grammar. rewrite <- gparse_iff_query.
+  destruct (gparse (strip_ws s)); cbn; split; congruence.
+Qed.
+
+Theorem parse_error_class s e : parse s = Err e -> e = EPathExpr.
+Proof. rewrite parse_eq_grammar. destruct (grammar s); cbn; congruence. Qed.
+
+Corollary parse_assert_unreachable s : parse s <> Err EAssert.
+Proof. intros H. apply parse_error_class in H. discriminate. Qed.
+
+(* a string is rejected exactly when it is not in the grammar *)
+Corollary parse_rejects_iff s : parse s = Err EPathExpr <-> forall p, ~ Query (strip_ws s) p.
+Proof.
+  split.
+  - intros H p Q. apply parse_iff_grammar in Q. congruence.
+  - intros H. destruct (parse s) as [p|e] eqn:P.
+    + apply parse_iff_grammar in P. now elim (H p).
+    + now rewrite (parse_error_class _ _ P).
+Qed.
+
+Lemma query_functional w p q : Query w p -> Query w q -> p = q.
+Proof. rewrite <- !gparse_iff_query. congruence. Qed.
+
+(* white space anywhere is ignored *)
+Corollary parse_ignores_ws s : parse s = parse (strip_ws s).
+Proof.
+  rewrite !parse_eq_grammar. unfold grammar. f_equal. f_equal.
+  unfold strip_ws. induction s as [|c s IH]; [reflexivity|]. cbn [filter].
+  destruct (is_ws c) eqn:W; cbn [negb filter]; [exact IH|]. rewrite W. cbn [negb]. now rewrite <- IH.
+Qed.
+
+(* ------------------------------------------------------------------------- *)
+(* D11: the code as found                                                      *)
+(* ------------------------------------------------------------------------- *)
+(* '@[0]' is accepted although it is not in the grammar; the result has no
+   component and no subset slice, and its printout '' does not parse *)
+Theorem parse_orig_accepts_unterminated_refuted :
+  exists s p, parse_orig s = Ok p /\ (forall q, ~ Query (strip_ws s) q) /\
+              parse_orig (to_string p) <> Ok p /\ parse s = Err EPathExpr.
+Proof.
+  exists [ch_at; ch_lb; ch_0; ch_rb], (mkPath None []).
+  split; [vm_compute; reflexivity|]. split; [|split; [vm_compute; discriminate|vm_compute; reflexivity]].
+  intros q Q. apply gparse_iff_query in Q. vm_compute in Q. discriminate.
+Qed.
+
+(* '/1[:' : the unterminated component is silently dropped *)
+Theorem parse_orig_drops_component_refuted :
+  exists s p, parse_orig s = Ok p /\ p_comps p = [] /\ (forall q, ~ Query (strip_ws s) q) /\
+              parse s = Err EPathExpr.
+Proof.
+  exists [ch_slash; 49; ch_lb; ch_colon], (mkPath (Some slice_all) []).
+  split; [vm_compute; reflexivity|]. split; [reflexivity|]. split; [|vm_compute; reflexivity].
+  intros q Q. apply gparse_iff_query in Q. vm_compute in Q. discriminate.
+Qed.
+
+(* '\x1cA': str.strip() removes U+001C before the first-character test, the loop
+   does not ignore it: the id is "\x1cA" *)
+Theorem parse_orig_strip_refuted :
+  exists s p, parse_orig s = Ok p /\ (forall q, ~ Query (strip_ws s) q) /\ parse s = Err EPathExpr.
+Proof.
+  exists [28; 65], (mkPath (Some slice_all) [mkComp ch_gt [28; 65] slice_all]).
+  split; [vm_compute; reflexivity|]. split; [|vm_compute; reflexivity].
+  intros q Q. apply gparse_iff_query in Q. vm_compute in Q. discriminate.
+Qed.
+
+(* ------------------------------------------------------------------------- *)
+(* bounded sweeps inside Coq (independent of the inductive proof above)        *)
+(* ------------------------------------------------------------------------- *)
+Lemma strings_complete A n : forall s, length s = n -> (forall c, In c s -> In c A) -> In s (strings A n).
+Proof.
+  induction n as [|n IH]; intros s L H.
+  - destruct s; [left; reflexivity|discriminate].
+  - destruct s as [|c w]; [discriminate|]. cbn [strings]. apply in_flat_map. exists w. split.
+    + apply IH; [now injection L|]. intros x X. apply H. now right.
+    + apply (in_map (fun c => c :: w) A c). apply H. now left.
+Qed.
+
+Lemma sweep_lift (P : list char -> bool) n :
+  forallb (fun k => forallb P (strings alphabet12 k)) (seq 0 (S n)) = true ->
+  forall s, (length s <= n)%nat -> (forall c, In c s -> In c alphabet12) -> P s = true.
+Proof.
+  intros H s L A. rewrite forallb_forall in H. specialize (H (length s)).
+  rewrite forallb_forall in H. apply H; [apply in_seq; lia|]. now apply strings_complete.
+Qed.
+
+Lemma sweep_agrees_5 : forallb (fun k => forallb agrees (strings alphabet12 k)) (seq 0 6) = true.
+Proof. vm_compute. reflexivity. Qed.
+
+Lemma sweep_reparses_5 : forallb (fun k => forallb reparses (strings alphabet12 k)) (seq 0 6) = true.
+Proof. vm_compute. reflexivity. Qed.
+
+(* every string of length <= 5 over { @ [ ] : / . > - 0 1 A space }: the parser's
+   answer is exactly the recogniser's (same path, or EPathExpr) *)
+Theorem parse_iff_grammar_upto5 : forall s, (length s <= 5)%nat ->
+  (forall c, In c s -> In c alphabet12) -> agrees s = true.
+Proof. exact (sweep_lift agrees 5 sweep_agrees_5). Qed.
+
+Theorem parse_to_string_upto5 : forall s, (length s <= 5)%nat ->
+  (forall c, In c s -> In c alphabet12) -> reparses s = true.
+Proof. exact (sweep_lift reparses 5 sweep_reparses_5). Qed.
